@@ -58,6 +58,8 @@ def check_waiting_fifo(check, an: Analysis, rule='F'):
                     and node.args[0].value == 0
                 check.instance(rule, construct, ok, where,
                                'waiters are taken from the front: %s' % ast.unparse(node))
+            elif detail in ('index', 'count', '__len__', '__contains__'):
+                continue
             elif detail in allowed:
                 check.instance(rule, construct, True, where,
                                'order preserving mutator %s' % ast.unparse(node)[:60],
@@ -72,11 +74,14 @@ def check_waiting_fifo(check, an: Analysis, rule='F'):
                                     % (ast.unparse(node)[:60], where))
         elif kind == 'arg' and detail in ('len', 'list', 'bool', 'tuple'):
             continue
-        elif kind in ('other', 'attr', 'arg', 'iter', 'subscript'):
-            # reads (truth tests, len, repr, iteration over a copy) are fine
-            if kind == 'subscript' and detail != 'Load':
+        elif kind == 'subscript':
+            if detail != 'Load':
                 check.instance(rule, construct, False, where,
-                               'indexed store into the waiter list')
+                               'indexed store/delete on the waiter list re-orders waiters: %s'
+                               % ast.unparse(node)[:60])
+        elif kind in ('other', 'attr', 'arg', 'iter', 'alias'):
+            # reads (truth tests, len, repr, iteration over a copy) are fine
+            pass
     stores = rules.attribute_stores(an, '_waiting', NOTIFICATION)
     for fn, stmt, target, recvs in stores:
         where = '%s:%d' % (fn.module.relpath, stmt.lineno)
